@@ -880,6 +880,7 @@ type c07World struct {
 	lr        leaderrotation.LeaderRotation
 	fetchDown bool // peers do not answer block requests during the current stimulus
 	sendFails int
+	signed    int                 // messages the replica under test has signed itself in this world (votes, timeouts)
 	sent      []hotstuff.SyncInfo // sync infos handed to core.Sender during the current stimulus
 	u         *c07Univ
 	agg       bool
@@ -918,6 +919,7 @@ func (r *c07RecBase) Sign(m []byte) (hotstuff.QuorumSignature, error) {
 	s, err := r.Base.Sign(m)
 	if err == nil {
 		r.w.held[c07Contrib{1, string(m)}] = true
+		r.w.signed++
 	}
 	return s, err
 }
